@@ -643,7 +643,7 @@ def _expr_fields(st):
             if part is not None:
                 out += _expr_fields(part)
         out.append((st, 'cond'))
-    elif isinstance(st, CIf):
+    elif isinstance(st, (CIf, CWhile)):
         out.append((st, 'cond'))
     elif isinstance(st, CReturn):
         out.append((st, 'value'))
@@ -655,6 +655,9 @@ def _nested(stmts):
         yield st
         if isinstance(st, CFor):
             yield from _nested(st.body)
+        elif isinstance(st, CWhile):
+            yield from _nested(st.body)
+            yield from _nested(getattr(st, 'steps', None) or [])
         elif isinstance(st, CIf):
             yield from _nested(st.body)
             yield from _nested(st.orelse)
@@ -674,7 +677,7 @@ def _assigned_in(stmts):
             e = getattr(h, a)
             if isinstance(e, ast.AST):
                 for n in ast.walk(e):
-                    if isinstance(n, ast.Call) and isinstance(n.func, ast.Name) and n.func.id == 'addr' and n.args and isinstance(n.args[0], ast.Name):
+                    if isinstance(n, ast.Call) and isinstance(n.func, ast.Name) and n.func.id in ('addr', 'postinc', 'postdec') and n.args and isinstance(n.args[0], ast.Name):
                         out.add(n.args[0].id)
     return out
 
@@ -736,6 +739,9 @@ def c_inline_new_scalars(f, recorded):
                             if isinstance(part, CAssign) and isinstance(part.target, ast.Name) and part.target.id == name:
                                 defs.append((None, None, None))
                         find(st.body)
+                    elif isinstance(st, CWhile):
+                        find(st.body)
+                        find(getattr(st, 'steps', None) or [])
                     elif isinstance(st, CIf):
                         find(st.body)
                         find(st.orelse)
@@ -781,7 +787,7 @@ def c_inline_new_scalars(f, recorded):
                 for j, st in enumerate(list(stmts)):
                     if isinstance(st, CDecl) and st.name == name:
                         stmts.remove(st)
-                    elif isinstance(st, CFor):
+                    elif isinstance(st, (CFor, CWhile)):
                         drop(st.body)
                     elif isinstance(st, CIf):
                         drop(st.body)
